@@ -3,6 +3,9 @@ import Fundraising.Proofs.ExecLemmas
 import Fundraising.Proofs.Reach
 import Fundraising.Proofs.VestingLemmas
 import Fundraising.Proofs.MatchLemmas
+import Fundraising.Proofs.GenesisProofs
+import Fundraising.Proofs.EscrowMsgs
+import Fundraising.Proofs.EscrowBlock
 /-
   C01 — escrow accounts hold what the records owe.
   STATEMENTS ARE FIXED (cited by Props/C01.lean, Props/C07.lean).
@@ -17,22 +20,161 @@ def AllCovered (s : Core) : Prop := ∀ i v, s.views[i]? = some v → EscrowCove
 def AllExact (s : Core) : Prop :=
   (∀ i v, s.views[i]? = some v → EscrowExact s i v) ∧ FutureEscrowsEmpty s
 
+namespace EscrowInv
+
+theorem allCovered_iff (s : Core) : AllCovered s ↔ AllCov s := Iff.rfl
+theorem allExact_iff (s : Core) : AllExact s ↔ AllEx s := Iff.rfl
+
+theorem escrowCovered_mono {s s' : Core} {j : Nat} {v : AView}
+    (hb : ∀ x, escIdx x = some j → ∀ d, s.bank x d ≤ s'.bank x d)
+    (h : EscrowCovered s j v) : EscrowCovered s' j v := by
+  obtain ⟨a, b, c⟩ := h
+  exact ⟨Int.le_trans a (hb _ rfl _), Int.le_trans b (hb _ rfl _), Int.le_trans c (hb _ rfl _)⟩
+
+/-- a successful handler run: every case of `deliver`, for coverage -/
+theorem deliver_cov {c c' : Ctx} {m : Msg} (h : deliver c m = .ok c') (hwf : WF c.s)
+    (hnn : BankNonneg c.s) (hc : AllCov c.s) : AllCov c'.s := by
+  rcases deliver_cases h with ⟨i, g⟩ | ⟨m', hcr⟩ | ⟨hv, hb⟩
+  · exact g.allCov (fun v hv => hwf.views i v hv) hc
+  · obtain ⟨b', v, e, hfr, hsl⟩ := create_spec hcr
+    refine allCov_append (v := v) (by rw [e]) (by intro x j hx hj d; rw [e]; exact hfr x j hx hj d) ?_ hc
+    rw [escrowCovered_iff]
+    obtain ⟨h1, _, _⟩ := hsl v.a.sellDenom
+    obtain ⟨_, h2, h3⟩ := hsl v.a.payDenom
+    rw [h1, h2, h3]
+    exact ⟨hnn _ _, hnn _ _, hnn _ _⟩
+  · exact allCov_of_same hv (fun x j _ d => by rw [hb]) hc
+
+theorem deliver_ex {c c' : Ctx} {m : Msg} (h : deliver c m = .ok c') (hwf : WF c.s)
+    (hc : AllEx c.s) : AllEx c'.s := by
+  rcases deliver_cases h with ⟨i, g⟩ | ⟨m', hcr⟩ | ⟨hv, hb⟩
+  · exact g.allEx (fun v hv => hwf.views i v hv) hc
+  · obtain ⟨b', v, e, hfr, hsl⟩ := create_spec hcr
+    refine allEx_append (v := v) (by rw [e]) (by intro x j hx hj d; rw [e]; exact hfr x j hx hj d) ?_ hc
+    rw [escrowExact_iff]
+    intro d
+    obtain ⟨h1, h2, h3⟩ := hsl d
+    obtain ⟨e1, e2, e3⟩ := hc.2 c.s.views.length (Nat.le_refl _) d
+    rw [h1, h2, h3]
+    exact ⟨e1, e2, e3⟩
+  · exact allEx_of_same hv (fun x j _ d => by rw [hb]) hc
+
+/-- `runAtomic` keeps a predicate that the handler keeps on success -/
+theorem runAtomic_keeps (P : Core → Prop) (st : State) (recover : Bool) (f : Ctx → M Ctx)
+    (hf : ∀ c', f { s := st.core, ctl := st.ctl } = .ok c' → P c'.s) (hp : P st.core) :
+    P (runAtomic st recover f).2.core := by
+  rcases runAtomic_cases st recover f with ⟨c, hc, e⟩ | ⟨e, _, e2, _⟩
+  · rw [e]; exact hf c hc
+  · rw [e2]; exact hp
+
+end EscrowInv
+
+open EscrowInv
+
 theorem covered_init : AllCovered ({} : Core) := by
-  sorry
+  intro i v h
+  simp at h
 
 /-- every operation, including third-party transfers into escrow accounts, keeps the
     escrows covering what is owed -/
 theorem covered_step (st : State) (op : Op) (hwf : WF st.core) (hnn : BankNonneg st.core)
     (h : AllCovered st.core) : AllCovered (step st op).2.core := by
-  sorry
+  cases op with
+  | reset => exact covered_init
+  | fund u d amt =>
+    refine allCov_of_same (s := st.core) rfl ?_ h
+    intro x j hx d'
+    simp only [step]
+    simp [esc_ne_user hx]
+  | gift src dst d amt =>
+    simp only [step]
+    by_cases hle : amt ≤ 0
+    · rw [if_pos hle]; exact h
+    · rw [if_neg hle, sendCoins_single]
+      by_cases hlt : st.core.bank (.user src) d < amt
+      · rw [if_pos hlt]; exact h
+      · rw [if_neg hlt]
+        intro j v hv
+        refine escrowCovered_mono ?_ (h j v hv)
+        intro x hx d'
+        simp only [move_apply]
+        simp only [esc_ne_user hx, false_and, if_false, Int.sub_zero]
+        split <;> omega
+  | msg m =>
+    exact runAtomic_keeps AllCov st true _ (fun c' hc => deliver_cov hc hwf hnn h) h
+  | kadd aid abs =>
+    exact runAtomic_keeps AllCov st true _
+      (fun c' hc => (add_good hc).allCov (fun v hv => hwf.views aid v hv) h) h
+  | kupd aid u cap =>
+    exact runAtomic_keeps AllCov st true _
+      (fun c' hc => (upd_good hc).allCov (fun v hv => hwf.views aid v hv) h) h
+  | block t =>
+    have h' : AllCov ({ st.core with now := t } : Core) := allCov_of_same (s := st.core) rfl (fun _ _ _ _ => rfl) h
+    exact runAtomic_keeps AllCov { st with core := { st.core with now := t } } false _
+      (fun c' hc => beginBlock_keeps AllCov (fun i s s' g w p => g.allCov w p) hc
+        (fun j v hv => hwf.views j v hv) h') h'
+  | genesis =>
+    simp only [step]
+    rw [reimport_eq _ hwf]
+    exact h
+  | listeners n => exact h
+  | failhook name idx => exact h
+  | fault k => exact h
+  | query q => exact h
 
 theorem exact_init : AllExact ({} : Core) := by
-  sorry
+  refine ⟨?_, ?_⟩
+  · intro i v h
+    simp at h
+  · intro i _ d
+    exact ⟨rfl, rfl, rfl⟩
 
 /-- every operation other than a third-party transfer into an escrow account keeps the
     escrow balances EXACTLY equal to what is owed -/
 theorem exact_step (st : State) (op : Op) (hwf : WF st.core) (hop : op.noEscrowGift = true)
     (h : AllExact st.core) : AllExact (step st op).2.core := by
-  sorry
+  cases op with
+  | reset => exact exact_init
+  | fund u d amt =>
+    refine allEx_of_same (s := st.core) rfl ?_ h
+    intro x j hx d'
+    simp only [step]
+    simp [esc_ne_user hx]
+  | gift src dst d amt =>
+    simp only [step]
+    by_cases hle : amt ≤ 0
+    · rw [if_pos hle]; exact h
+    · rw [if_neg hle, sendCoins_single]
+      by_cases hlt : st.core.bank (.user src) d < amt
+      · rw [if_pos hlt]; exact h
+      · rw [if_neg hlt]
+        refine allEx_of_same (s := st.core) rfl ?_ h
+        intro x j hx d'
+        simp only [move_apply]
+        have hdst : x ≠ dst := by
+          intro e; subst e
+          cases x <;> simp [escIdx] at hx <;> simp [Op.noEscrowGift] at hop
+        simp [esc_ne_user hx, hdst]
+  | msg m =>
+    exact runAtomic_keeps AllEx st true _ (fun c' hc => deliver_ex hc hwf h) h
+  | kadd aid abs =>
+    exact runAtomic_keeps AllEx st true _
+      (fun c' hc => (add_good hc).allEx (fun v hv => hwf.views aid v hv) h) h
+  | kupd aid u cap =>
+    exact runAtomic_keeps AllEx st true _
+      (fun c' hc => (upd_good hc).allEx (fun v hv => hwf.views aid v hv) h) h
+  | block t =>
+    have h' : AllEx ({ st.core with now := t } : Core) := allEx_of_same (s := st.core) rfl (fun _ _ _ _ => rfl) h
+    exact runAtomic_keeps AllEx { st with core := { st.core with now := t } } false _
+      (fun c' hc => beginBlock_keeps AllEx (fun i s s' g w p => g.allEx w p) hc
+        (fun j v hv => hwf.views j v hv) h') h'
+  | genesis =>
+    simp only [step]
+    rw [reimport_eq _ hwf]
+    exact h
+  | listeners n => exact h
+  | failhook name idx => exact h
+  | fault k => exact h
+  | query q => exact h
 
 end Fundraising
